@@ -1063,52 +1063,73 @@ func c18R4(p *Prog, r *Report) {
 	// tcpNetwork: accepted networks == handled cases
 	ci := p.Func("service", "ClientConfig", "Initialize")
 	tn := p.Func("service", "ClientConfig", "tcpNetwork")
-	accepted := map[string]bool{}
-	ast.Inspect(ci.Body, func(n ast.Node) bool {
-		sw, ok := n.(*ast.SwitchStmt)
-		if !ok || sw.Tag == nil || !strings.HasSuffix(exprStr(sw.Tag), ".Network") {
-			return true
-		}
-		for _, cl := range sw.Body.List {
-			cc := cl.(*ast.CaseClause)
-			isErr := false
-			assigned := ""
-			for _, st := range cc.Body {
-				if rs, ok := st.(*ast.ReturnStmt); ok && len(rs.Results) > 0 && nonNilErrExpr(ci.Info(), rs.Results[len(rs.Results)-1]) {
-					isErr = true
-				}
-				if as, ok := st.(*ast.AssignStmt); ok && strings.HasSuffix(exprStr(as.Lhs[0]), ".Network") {
-					if v, isC := constOf(ci.Info(), as.Rhs[0]); isC {
-						assigned = constant.StringVal(v)
-					}
-				}
-			}
-			if isErr || cc.List == nil {
+	// string constants the Network option is compared with, whatever the shape of the test
+	// (switch case, ==, != with the edges swapped): constant -> edges on which Network == constant
+	netEdges := func(fc *FuncCtx) map[string][]Edge {
+		out := map[string][]Edge{}
+		info := fc.Info()
+		for _, v := range fc.G.V {
+			x, y, op, ok := condParts(v)
+			if !ok || y == nil || (op != token.EQL && op != token.NEQ) {
 				continue
 			}
-			for _, e := range cc.List {
-				if v, isC := constOf(ci.Info(), e); isC {
-					s := constant.StringVal(v)
-					if assigned != "" {
-						s = assigned
-					}
-					accepted[s] = true
+			isNet := func(e ast.Expr) bool { return strings.HasSuffix(exprStr(fc.Resolve(e)), ".Network") }
+			var other ast.Expr
+			switch {
+			case isNet(x):
+				other = y
+			case isNet(y):
+				other = x
+			default:
+				continue
+			}
+			cv, isC := constOf(info, other)
+			if !isC || cv.Kind() != constant.String {
+				continue
+			}
+			lab := LTrue
+			if op == token.NEQ {
+				lab = LFalse
+			}
+			for _, e := range v.Succs {
+				if e.Label == lab {
+					out[constant.StringVal(cv)] = append(out[constant.StringVal(cv)], e)
 				}
 			}
 		}
-		return false
-	})
+		return out
+	}
+	accepted := map[string]bool{}
+	var validated []int // the vertices that test the option in Initialize
+	for k, edges := range netEdges(ci) {
+		for _, e := range edges {
+			validated = append(validated, e.From)
+			if errorOnlyFrom(ci, e) {
+				continue // refused value
+			}
+			// a value that is rewritten on its edge (the empty default) counts as what it becomes
+			val := k
+			for _, v := range ci.G.V {
+				as, ok := v.Node.(*ast.AssignStmt)
+				if !ok || len(as.Lhs) != 1 || len(as.Rhs) != 1 || !strings.HasSuffix(exprStr(as.Lhs[0]), ".Network") {
+					continue
+				}
+				if cv, isC := constOf(ci.Info(), as.Rhs[0]); isC && cv.Kind() == constant.String && ci.G.EdgeDominates([]Edge{e}, v.ID) {
+					val = constant.StringVal(cv)
+				}
+			}
+			accepted[val] = true
+		}
+	}
 	handled := map[string]bool{}
-	ast.Inspect(tn.Body, func(n ast.Node) bool {
-		if cc, ok := n.(*ast.CaseClause); ok {
-			for _, e := range cc.List {
-				if v, isC := constOf(tn.Info(), e); isC {
-					handled[constant.StringVal(v)] = true
-				}
+	for k, edges := range netEdges(tn) {
+		for _, e := range edges {
+			// handled: from this edge the function returns without reaching its panic
+			if !tn.G.Reach([]int{e.To}, nil, nil)[tn.G.Panic] {
+				handled[k] = true
 			}
 		}
-		return true
-	})
+	}
 	okNet := len(accepted) > 0
 	for k := range accepted {
 		if !handled[k] {
@@ -1121,10 +1142,9 @@ func c18R4(p *Prog, r *Report) {
 	okOrder := false
 	for _, cs := range ci.AllCalls() {
 		if cs.Fn != nil && cs.Fn.Name() == "tcpNetwork" {
-			for _, v := range ci.G.V {
-				if v.Kind == VSwitchCase && strings.HasSuffix(exprStr(v.Tag), ".Network") && ci.G.Dominates([]int{v.ID}, cs.V) {
-					okOrder = true
-				}
+			// every test of the option precedes the call (the call is not reachable around them)
+			if len(validated) > 0 && ci.G.Dominates(validated, cs.V) {
+				okOrder = true
 			}
 		}
 	}
@@ -1158,6 +1178,21 @@ func c18R5(p *Prog, r *Report) {
 			out = append(out, strings.Join(strings.Fields(fullStr(cl)), ""))
 			return false
 		})
+		// the value may come from a helper of the package that both sites share: the helper's
+		// identity stands for its value
+		for _, cs := range fc.AllCalls() {
+			if cs.Fn == nil || cs.Fn.Pkg() == nil || cs.Fn.Pkg().Path() != mp("service") {
+				continue
+			}
+			sig := cs.Fn.Type().(*types.Signature)
+			if sig.Results().Len() == 1 && namedTypeName(sig.Results().At(0).Type()) == typ {
+				recvT := ""
+				if rt := recvTypeOf(cs.Fn); rt != nil {
+					recvT = namedTypeName(rt)
+				}
+				out = append(out, "call "+recvT+"."+cs.Fn.Name())
+			}
+		}
 		return out
 	}
 	for _, typ := range []string{"TCPListenerConfig", "UDPListenerConfig"} {
